@@ -205,7 +205,9 @@ def free_packs(gens):
 def rand_free_gens(rng):
     if rng.random() < 0.25:
         return list(rng.choice(FREE_SETS))
-    bases = rng.sample(["a", "b", "c", "x", "y", "ab", "gen"], rng.choice([1, 2, 2, 3]))
+    # multi-character names share no letter with the other names: the enumerators join labels into one string, and the
+    # language clauses need every such string to decode in one way only
+    bases = rng.sample(["a", "b", "c", "x", "y", "pq", "gen"], rng.choice([1, 2, 2, 3]))
     style = rng.choice(["lower", "upper", "mixed", "mixed", "both"])
     gens = []
     for b in bases:
